@@ -167,13 +167,30 @@ Definition safe_arg (a : arg) : bool :=
 Definition safe_site (s : site) : bool :=
   negb (prints default_level (s_level s)) || forallb safe_arg (s_args s).
 
+(* The one gate.  LOG_CLIENT_IP as the station reads it (cmd/application/main.go):
+   `logClientIP, err = strconv.ParseBool(os.Getenv("LOG_CLIENT_IP")); if err != nil { logClientIP = false }`.
+   Values fall into four classes with respect to strconv.ParseBool. *)
+Inductive envval :=
+  | EVUnset       (* variable not set (or empty): ParseBool fails *)
+  | EVTrue        (* 1 t T TRUE true True *)
+  | EVFalse       (* 0 f F FALSE false False *)
+  | EVOther.      (* anything else: ParseBool fails — "disabled", "no", "false ", quoted, garbage *)
+Definition parse_bool (v : envval) : option bool :=
+  match v with EVTrue => Some true | EVFalse => Some false | EVUnset | EVOther => None end.
+(* fail-closed: logging of client addresses is enabled only by a value that parses as true *)
+Definition gate (v : envval) : bool :=
+  match parse_bool v with Some true => true | _ => false end.
+
 (* what the arguments of one execution of a site evaluate to *)
 Record env := {
-  log_client_ip : bool;
+  env_value : envval;                   (* the LOG_CLIENT_IP setting of the process *)
   err_of : nat -> option eshape;        (* the error value flowing into argument i (before sanitising) *)
   digest_of : nat -> list N;            (* the words of a digest argument *)
   const_of : nat -> list N;
 }.
+
+(* every site that may print the client address consults this and nothing else *)
+Definition log_client_ip (ev : env) : bool := gate (env_value ev).
 
 Definition words (l : list N) : list tok := map TWord l.
 Definition err_text (e : option eshape) : list tok :=
